@@ -16,9 +16,10 @@ REAL reader's output with the same function.
 
 The hypotheses are those of C05_spec_reader_accepts_writer (Properties/C05/SpecWriter.lean), where
 each is explained: codec among UNCOMPRESSED / SNAPPY / LZ4 / LZ4_RAW; `SchemaOk` (at least one column,
-flat REQUIRED / OPTIONAL columns, FLBA with a positive length, C-string names); `HistOk` (the arrays
+flat REQUIRED / OPTIONAL / REPEATED columns, FLBA with a positive length, C-string names); `HistOk` (the arrays
 hold what the counts say, values are bit patterns of the column's type, columns of a row group are
-aligned); `FileSizesOk` (file below 2 GiB, at most 32768 row groups, chunk `num_values` and
+aligned — the rows of a REPEATED column are its entries with repetition level 0 — and begin with
+repetition level 0); `FileSizesOk` (file below 2 GiB, at most 32768 row groups, chunk `num_values` and
 `total_uncompressed_size` below 2^31); every call and the close returned OK.
 
 Stages (each a statement of its own below; lemmas in Proofs/Roundtrip{Page,Open,Layout,Chunk,File,Cursor}.lean):
@@ -54,7 +55,7 @@ private theorem run_all (cols : List Col) (codec pageSize : Nat) (ops : List Op)
     RunSmall (mdOfRun (deps []) cols codec pageSize "Carquet" ops) (pagesOfRun (deps []) cols codec pageSize "Carquet" ops) ∧
     ReadSmall (fileOf (deps []) cols codec pageSize "Carquet" ops).1 (mdOfRun (deps []) cols codec pageSize "Carquet" ops) := by
   have hf := run_facts (deps []) (goodPred []) cols codec pageSize "Carquet" ops hhist.wf hhist.batches hok
-  refine ⟨hf, runSmall_of_output [] (goodPred []) codec hcodec cols ops _ _ _ hf hschema.small hsize, ?_, ?_⟩
+  refine ⟨hf, runSmall_of_output [] codec hcodec cols ops _ _ _ hf hschema.small hsize, ?_, ?_⟩
   · exact Nat.lt_trans hsize.fileLen (by decide)
   · intro g hg ch hch
     exact (hsize.chunks g hg ch hch).1
@@ -433,25 +434,27 @@ theorem C01_null_def_levels_all_present (c : Col) (b : Batch) (hc : c.rep = .opt
 
 private def exCols : List Col := [⟨"a", .int32, .optional, 0⟩, ⟨"b", .boolean, .required, 0⟩]
 private def exOps : List Op :=
-  [.batch ⟨0, 3, some [1, 0, 1], [[1, 0, 0, 0], [2, 0, 0, 0]]⟩, .batch ⟨1, 3, none, [[1], [0], [1]]⟩, .newRowGroup,
-   .batch ⟨0, 1, none, [[7, 0, 0, 0]]⟩, .batch ⟨1, 1, none, [[0]]⟩]
+  [.batch ⟨0, 3, some [1, 0, 1], [[1, 0, 0, 0], [2, 0, 0, 0]], none⟩, .batch ⟨1, 3, none, [[1], [0], [1]], none⟩, .newRowGroup,
+   .batch ⟨0, 1, none, [[7, 0, 0, 0]], none⟩, .batch ⟨1, 1, none, [[0]], none⟩]
 
 private theorem exSchemaOk : SchemaOk exCols :=
   ⟨by decide, fun c hc => by
     simp only [exCols, List.mem_cons, List.mem_nil_iff, or_false] at hc
-    rcases hc with rfl | rfl <;> exact ⟨by decide, by decide⟩,
+    rcases hc with rfl | rfl <;> exact ⟨by decide⟩,
    ⟨by decide, by decide +kernel, by decide⟩⟩
 
 private theorem exHistOk : HistOk exCols exOps := by
-  refine ⟨?_, ?_, by decide +kernel⟩
+  refine ⟨?_, ?_, by decide +kernel, by decide +kernel⟩
   · intro b hb
     simp only [exOps, List.mem_cons, Op.batch.injEq, List.mem_nil_iff, or_false, reduceCtorEq, false_or] at hb
-    rcases hb with h | h | h | h <;> subst h <;> exact ⟨by decide, by intro ds h; cases h <;> rfl⟩
+    rcases hb with h | h | h | h <;> subst h <;>
+      exact ⟨by decide, (by intro ds h; cases h <;> rfl), (by intro rs h; cases h)⟩
   · intro b hb c hc
     simp only [exOps, List.mem_cons, Op.batch.injEq, List.mem_nil_iff, or_false, reduceCtorEq, false_or] at hb
     rcases hb with h | h | h | h <;> subst h <;>
       simp only [exCols, List.getElem?_cons_zero, List.getElem?_cons_succ, Option.some.injEq] at hc <;> subst hc <;>
-      exact ⟨by decide, by intro ds h; cases h <;> rfl, by intro _ ds h; cases h <;> decide, by decide⟩
+      exact ⟨by decide, (by intro ds h; cases h <;> rfl), (by intro _ ds h; cases h <;> decide), by decide,
+        (by intro rs h; cases h), (by intro _ rs h; cases h)⟩
 
 private theorem exSizesOk : FileSizesOk exCols 1 64 exOps := ⟨by decide +kernel, by decide +kernel, by decide +kernel⟩
 
@@ -472,6 +475,33 @@ example : readerTableOf exCols exOps =
 /-- … and its rows for the batch-at-a-time API -/
 example : tableRows ⟨"a", .int32, .optional, 0⟩ ⟨3, [1, 0, 1], [], [[1, 0, 0, 0], [2, 0, 0, 0]]⟩ =
     [⟨1, 0, some [1, 0, 0, 0]⟩, ⟨0, 0, none⟩, ⟨1, 0, some [2, 0, 0, 0]⟩] := by decide
+
+/-! ### non-vacuity for REPEATED columns: a REPEATED INT32 column first (rows [1,2], [], [3,4]; the second
+batch continues the last list, so with page size 1 a page ends inside a row; then two one-element
+lists written with NULL level pointers) next to a REQUIRED column, two row groups, LZ4_RAW
+(`rpCols`, `rpOps` and the proofs that they satisfy the hypotheses: Properties/C05/SpecWriter.lean) -/
+
+open Carquet.Properties.C05 (rpCols rpOps rpSchemaOk rpHistOk rpSizesOk rpAllOk) in
+/-- the theorem applied: the reader returns the table with the REPEATED column, in fread mode -/
+example : Reader.readAll Reader.Fixes.all Carquet.Proofs.ReaderExamples.noLibs true .fread
+    (fileOf (deps []) rpCols 7 1 "Carquet" rpOps).1 = .ok (readerTableOf rpCols rpOps) :=
+  C01_roundtrip rpCols 7 1 rpOps .fread true _ (by decide) rpSchemaOk rpHistOk rpSizesOk
+    (fun s hs => by simpa using List.all_eq_true.mp rpAllOk s hs)
+
+open Carquet.Properties.C05 (rpCols rpOps) in
+/-- its table: `num_rows` 5 = 3 + 2 rows (not the 7 level entries of column `l`); per entry of `l` the
+definition level (0 = empty list) and the dense values -/
+example : readerTableOf rpCols rpOps =
+    ⟨5, [[⟨[1, 1, 0, 1, 1], [[1, 0, 0, 0], [2, 0, 0, 0], [3, 0, 0, 0], [4, 0, 0, 0]]⟩,
+          ⟨[0, 0, 0], [[10, 0, 0, 0], [11, 0, 0, 0], [12, 0, 0, 0]]⟩],
+         [⟨[1, 1], [[5, 0, 0, 0], [6, 0, 0, 0]]⟩, ⟨[0, 0], [[13, 0, 0, 0], [14, 0, 0, 0]]⟩]]⟩ := by decide +kernel
+
+open Carquet.Properties.C05 (rpCols rpOps) in
+/-- … and the entries of column `l` of the first row group for the batch-at-a-time API
+(C01_roundtrip_any_consumption), with their repetition levels: [1,2], [], [3,4] -/
+example : ((tableOf rpCols rpOps)[0]?.bind (·[0]?)).map (tableRows ⟨"l", .int32, .repeated, 0⟩) =
+    some [⟨1, 0, some [1, 0, 0, 0]⟩, ⟨1, 1, some [2, 0, 0, 0]⟩, ⟨0, 0, none⟩, ⟨1, 0, some [3, 0, 0, 0]⟩,
+          ⟨1, 1, some [4, 0, 0, 0]⟩] := by decide +kernel
 
 /-! ### non-vacuity of the library form: the same history written with codec tag GZIP, with a "library"
 that stores its input (it satisfies the contract), the oracle holding what it produced -/
